@@ -29,6 +29,7 @@ func init() { Register("C04", checkC04) }
 type foPair struct {
 	fo, gen string // absolute paths
 	label   string
+	program []string // all sources of the program the file belongs to (nil: the file alone)
 }
 
 // ---------- expected declarations from a .fo file (tokens only) ----------
@@ -40,6 +41,7 @@ type expDecl struct {
 	flds  []string // struct: field names in order
 	line  int
 	pcase bool // struct: a union case with a payload (its Stringer calls frt.Sprintf1)
+	rec   bool // struct: a record type
 }
 
 func (d expDecl) String() string {
@@ -173,7 +175,7 @@ func typeDecls(ts []fo.Tok) ([]expDecl, string) {
 		if body[0].Text == "{" {
 			// record: fields separated by ';'
 			inner := body[1 : len(body)-1]
-			d := expDecl{kind: "struct", name: name, line: g[0].Line}
+			d := expDecl{kind: "struct", name: name, line: g[0].Line, rec: true}
 			for _, f := range splitDepth0(inner, ";") {
 				if len(f) >= 2 && f[0].Kind == fo.IDENT && f[1].Text == ":" {
 					d.flds = append(d.flds, f[0].Text)
@@ -582,6 +584,19 @@ func checkFoPair(c *Ctx, p foPair) {
 			r.Bad("C04.h", p.label, "temporaries", c.Pos(fset, firstBad), sprintf("the switch temporaries of the generated file are not numbered in file order (first occurrences: %v): the compiler numbers them with a counter that runs through the file, so regeneration produces other names — a generated function was moved, pasted or edited by hand", order))
 		}
 	}
+	// (i, second clause) fc writes the type of every composite literal; an element without one ([]T{{…}}) is the
+	// spelling of `gofmt -s`, which the recipe does not run
+	{
+		elided := token.NoPos
+		ast.Inspect(gf, func(x ast.Node) bool {
+			if cl, ok := x.(*ast.CompositeLit); ok && cl.Type == nil && elided == token.NoPos {
+				elided = cl.Pos()
+			}
+			return true
+		})
+		r.Check(elided == token.NoPos, "C04.i", p.label, "composite-literal-types", c.Pos(fset, gf.Pos()), "every composite literal of the generated file names its type",
+			"a composite literal with an elided type at "+c.Pos(fset, elided)+": fc always writes the type, so the file was rewritten by another tool (gofmt -s) or by hand and is not what regeneration yields")
+	}
 	// expected declarations
 	var exp []expDecl
 	type letSeg struct {
@@ -792,6 +807,20 @@ func checkFoPair(c *Ctx, p foPair) {
 		}
 	}
 	c.R.Unit("definitions_compared", nDefs)
+	// (i)
+	{
+		files := p.program
+		if len(files) == 0 {
+			files = []string{p.fo}
+		}
+		lm := map[string][]fo.Tok{}
+		var names []string
+		for _, l := range lets {
+			lm[l.name] = l.all
+			names = append(names, l.name)
+		}
+		checkRecordLiteralsUnambiguous(c, p.label, files, lm, names)
+	}
 }
 
 func checkC04(c *Ctx) {
@@ -809,6 +838,7 @@ func checkC04(c *Ctx) {
 	r.Rule("C04.b", "ordered declaration tables agree for every pair", 30)
 	r.Rule("C04.c", "per-definition literal sequences and construct counts agree", 400)
 	r.Rule("C04.c3", "per-definition ordered skeletons (identifiers outside type positions, operators, literals, if/match/not/pipe constructs) agree", 400)
+	r.Rule("C04.i", "every unqualified record literal has the field names of exactly one record type of its program (otherwise its type is the compiler's tie-break and regeneration may name another type); no composite literal of a generated file has an elided type (fc never emits one; gofmt -s does)", 40)
 	r.Rule("C04.h", "the compiler-generated switch temporaries of every generated file are numbered _v1, _v2, … in file order (what the emission counter yields)", 30)
 	r.Rule("C04.lex", "the hand-written lexer of fc is the reviewed one: the checker's own Folang tokenizer, on which rules (b), (c), (c2), (c3), (g) stand, was written against it (change detection; a different lexer is undecided)", 15)
 	r.Rule("C04.d", "generated files are gofmt-idempotent", 30)
@@ -832,9 +862,13 @@ func checkC04(c *Ctx) {
 		}
 		gens, _ := filepath.Glob(filepath.Join(root, "fc", "gen_*.go"))
 		want := map[string]bool{}
+		var fcProgram []string
+		for _, f := range fos {
+			fcProgram = append(fcProgram, filepath.Join(root, "fc", f))
+		}
 		for _, f := range fos {
 			want["gen_"+strings.TrimSuffix(f, ".fo")+".go"] = true
-			pairs = append(pairs, foPair{filepath.Join(root, "fc", f), filepath.Join(root, "fc", "gen_"+strings.TrimSuffix(f, ".fo")+".go"), "fc/" + f})
+			pairs = append(pairs, foPair{filepath.Join(root, "fc", f), filepath.Join(root, "fc", "gen_"+strings.TrimSuffix(f, ".fo")+".go"), "fc/" + f, fcProgram})
 			r.OK("C04.a", "fc/fc_all.sh", "lists "+f, "fc/fc_all.sh", "recipe argument")
 		}
 		for _, g := range gens {
@@ -856,7 +890,7 @@ func checkC04(c *Ctx) {
 			}
 			name := strings.SplitN(ln, " ", 2)[0]
 			listed = append(listed, name)
-			pairs = append(pairs, foPair{filepath.Join(root, "samples", name), filepath.Join(root, "samples", "gen_"+strings.TrimSuffix(name, ".fo")+".go"), "samples/" + name})
+			pairs = append(pairs, foPair{filepath.Join(root, "samples", name), filepath.Join(root, "samples", "gen_"+strings.TrimSuffix(name, ".fo")+".go"), "samples/" + name, nil})
 		}
 		want := map[string]bool{}
 		for _, n := range listed {
@@ -881,7 +915,7 @@ func checkC04(c *Ctx) {
 	} else {
 		r.Undecided("C04.a", "samples/filelist.txt", "read", "samples/filelist.txt", err.Error())
 	}
-	pairs = append(pairs, foPair{filepath.Join(root, "cmd/build_sample_md/build_sample_md.fo"), filepath.Join(root, "cmd/build_sample_md/gen_build_sample_md.go"), "cmd/build_sample_md/build_sample_md.fo"})
+	pairs = append(pairs, foPair{filepath.Join(root, "cmd/build_sample_md/build_sample_md.fo"), filepath.Join(root, "cmd/build_sample_md/gen_build_sample_md.go"), "cmd/build_sample_md/build_sample_md.fo", nil})
 	sort.Slice(pairs, func(i, j int) bool { return pairs[i].label < pairs[j].label })
 	for _, p := range pairs {
 		checkFoPair(c, p)
